@@ -104,7 +104,7 @@ PROPS = {
         "assumptions": ["Go maps and container/list are modelled (association lists, lists); chunk routing by fnv32 is modelled exactly; item sizes are >= 0"],
     },
     "C15": {
-        "theorems": ["SV.Props.C15.sized_lru_refines_reference", "SV.Props.C15.plain_lru_refines_reference", "SV.Props.C15.reference_never_evicts_just_written", "SV.Props.C15.reference_evicts_least_recent_first", "SV.Props.C15.reference_flags_truthful", "SV.Props.C15.reference_bytes_is_sum", "SV.Props.C15.source_eviction_test_is_the_models", "SV.Props.C15.invariant_put", "SV.Props.C15.invariant_hasOrAdd", "SV.Props.C15.invariant_get", "SV.Props.C15.invariant_remove", "SV.Props.C15.eviction_drops_lru_suffix", "SV.Props.C15.eviction_minimal", "SV.Props.C15.put_refreshes", "SV.Props.C15.negative_size_rejected", "SV.Props.C15.evicted_flag_truthful", "SV.Props.C15.get_refreshes", "SV.Props.C15.hasOrAdd_flags", "SV.Props.C15.simple_bound", "SV.Props.C15.simple_evicts_lru", "SV.Props.C15.put_invokes_each_handler_once", "SV.Props.C15.hasOrAdd_invokes_iff_added", "SV.Props.C15.registry_is_a_set", "SV.Props.C15.legacy_F11", "SV.Props.C15.library_lru_refines_reference", "SV.Props.C15.library_lru_never_exceeds_size", "SV.Props.C15.library_lru_add_evicts_least_recent"],
+        "theorems": ["SV.Props.C15.sized_lru_refines_reference", "SV.Props.C15.plain_lru_refines_reference", "SV.Props.C15.reference_never_evicts_just_written", "SV.Props.C15.reference_evicts_least_recent_first", "SV.Props.C15.reference_flags_truthful", "SV.Props.C15.reference_bytes_is_sum", "SV.Props.C15.source_eviction_test_is_the_models", "SV.Props.C15.invariant_put", "SV.Props.C15.invariant_hasOrAdd", "SV.Props.C15.invariant_get", "SV.Props.C15.invariant_remove", "SV.Props.C15.eviction_drops_lru_suffix", "SV.Props.C15.eviction_minimal", "SV.Props.C15.put_refreshes", "SV.Props.C15.negative_size_rejected", "SV.Props.C15.evicted_flag_truthful", "SV.Props.C15.get_refreshes", "SV.Props.C15.hasOrAdd_flags", "SV.Props.C15.simple_bound", "SV.Props.C15.simple_evicts_lru", "SV.Props.C15.put_invokes_each_handler_once", "SV.Props.C15.hasOrAdd_invokes_iff_added", "SV.Props.C15.registry_is_a_set", "SV.Props.C15.legacy_F11", "SV.Props.C15.library_lru_refines_reference", "SV.Props.C15.library_lru_never_exceeds_size", "SV.Props.C15.library_lru_add_evicts_least_recent", "SV.Props.C15.two_structure_sized_lru_refines_reference", "SV.Props.C15.two_structure_sized_lru_len_bound", "SV.Props.C15.two_structure_sized_lru_bytes_bound"],
         "modules": ["SV.Props.C15"],
         "runs": [{"component": "lru", "thorough_seeds": 2}],
         "rule": "random Put/HasOrAdd/Get/Peek/Has/Remove/Clear/Register/UnRegister histories over 3-8 keys on lrucache.NewCache (hashicorp LRU) and NewCacheWithSizeInBytes (capacityLRU), capacities 1-6, byte capacities 1..100000, sizes -3..1000; handler invocations collected per call; distinct = distinct (operation kind, canonical output incl. Keys order, Len, bytes, handler multiset) pairs",
